@@ -227,6 +227,7 @@ func oracleC12(v *View, vd *Verdict) {
 		lastState := ""
 		connected := false
 		relayable := false // since the last gateway->broker write the client sent something the gateway must relay
+		lastC2G := int64(-1)
 		for _, e := range sv.Evs {
 			if e.Kind == EvEnd || e.Kind == EvShutdown || e.Kind == EvBFin || e.Kind == EvBClose || e.Kind == EvMqClose {
 				break
@@ -247,6 +248,24 @@ func oracleC12(v *View, vd *Verdict) {
 					vd.Add("C12", "C12/gap/"+lastState+by, "session %s: no packet to the broker between %d and %d (%.1f s) with keep-alive %d s; state %s", sv.Name, lastG2B, now, float64(now-lastG2B)/1e9, w.ka, lastState)
 					lastG2B = now // report each gap once
 				}
+			}
+			if e.Kind == EvC2G && connected {
+				// the property speaks about clients that meet their own obligations: something within
+				// every keep-alive while active, a wake-up within every announced sleep duration.
+				// (Generators produce such clients; shrinking may not keep them so.)
+				allowed := ka
+				if w.st == stAsleep || w.st == stAwake {
+					allowed = int64(w.sleepDur) * 1000 * nsMs
+				}
+				if lastC2G >= 0 && allowed > 0 && e.T-lastC2G > allowed+50*nsMs {
+					break // not compliant from here on: nothing more is owed
+				}
+			}
+			if e.Kind == EvC2G {
+				lastC2G = e.T
+			}
+			if e.Kind == EvG2C && e.SNErr == nil && (e.SN.Type == refsn.PINGRESP || e.SN.Type == refsn.DISCONNECT) && (w.st == stAwake || w.sleepReq) {
+				lastC2G = e.T // a sleep period starts when the gateway answers
 			}
 			switch e.Kind {
 			case EvG2B:
@@ -284,13 +303,6 @@ func oracleC12(v *View, vd *Verdict) {
 		}
 		if connected {
 			vd.Trigger = true
-			if sv.EndT < 0 {
-				// open-ended tail up to the end of the simulation
-				ka := int64(w.ka) * 1000 * nsMs
-				if lastG2B >= 0 && ka > 0 && v.R.SimNs-int64(6e9)-lastG2B > ka*3/2+timingSlack {
-					vd.Add("C12", "C12/gap/"+lastState+"/tail", "session %s: no packet to the broker after %d although the compliant client kept going (keep-alive %d s)", sv.Name, lastG2B, w.ka)
-				}
-			}
 		}
 	}
 }
